@@ -643,6 +643,65 @@ def r14_override_hides_whatever_its_kind(ctx):
         raise AnalysisError(f"model collectors with a seen-names set found: {per_module}")
 
 
+def r15_extras_value_dispatch(ctx):
+    """`class Config: my_check = <value>` means `Check.my_check(...)` on the dataframe, and the documented reading of
+    `<value>` is: a tuple is the positional arguments, a dict the keyword arguments, anything else THE argument.  The same
+    check written on the object API (`Check.my_check(value)`) therefore receives a list as one argument.  Decided on the
+    conversion function (the one that calls `getattr(Check, name)(*args, **kwargs)`): the value is splatted positionally
+    exactly under `isinstance(value, tuple)` and as keywords exactly under `isinstance(value, dict)`."""
+    from ..cfg import cfg_of
+    m = ctx.ix.module("pandera/api/dataframe/model.py")
+    n = 0
+    for f in m.all_functions:
+        star_calls = [c for c in calls_in(f.node) if any(isinstance(a, ast.Starred) for a in c.args) and any(k.arg is None for k in c.keywords)
+                      and isinstance(c.func, ast.Call) and callee_last(c.func) == "getattr" and c.func.args and txt(c.func.args[0]) == "Check"]
+        if not star_calls:
+            continue
+        c0 = star_calls[0]
+        a_name = next(a.value.id for a in c0.args if isinstance(a, ast.Starred) and isinstance(a.value, ast.Name))
+        k_name = next(k.value.id for k in c0.keywords if k.arg is None and isinstance(k.value, ast.Name))
+        loops = [lp for lp in walk_no_nested(f.node) if isinstance(lp, ast.For) and isinstance(lp.target, ast.Tuple) and len(lp.target.elts) == 2]
+        if not loops:
+            raise AnalysisError(f"{f.short}: loop over the extras not found")
+        val = loops[0].target.elts[1].id
+        cfg = cfg_of(f.node)
+        ctx.touched(f)
+        for st in function_stmts(f):
+            if not isinstance(st, ast.Assign):
+                continue
+            pairs = {}
+            for t in st.targets:
+                if isinstance(t, ast.Tuple) and isinstance(st.value, ast.Tuple) and len(t.elts) == len(st.value.elts):
+                    pairs.update({e.id: v for e, v in zip(t.elts, st.value.elts) if isinstance(e, ast.Name)})
+                elif isinstance(t, ast.Name):
+                    pairs[t.id] = st.value
+            if a_name not in pairs and k_name not in pairs:
+                continue
+            node = cfg.node_of(st)
+            classes = set()
+            for t, pol in (cfg.guards(node.id) if node is not None else []):
+                if pol and isinstance(t, ast.Call) and isinstance(t.func, ast.Name) and t.func.id == "isinstance" and len(t.args) == 2 and txt(t.args[0]) == val:
+                    classes |= {x.id for x in ast.walk(t.args[1]) if isinstance(x, ast.Name)}
+
+            def is_splat(e):
+                return (isinstance(e, ast.Name) and e.id == val) or (isinstance(e, ast.Call) and isinstance(e.func, ast.Name) and e.func.id in ("tuple", "list", "dict")
+                                                                      and e.args and txt(e.args[0]) == val)
+            if a_name in pairs and is_splat(pairs[a_name]):
+                n += 1
+                ok = classes == {"tuple"}
+                ctx.ob("R15", f, f"{f.short}: the extras value is the positional arguments exactly when it is a tuple", ok,
+                       "isinstance(value, tuple)" if ok else
+                       f"`{txt(st)[:60]}` splats the value under {sorted(classes) or 'no type test'}: Config `my_check = ['a', 'b']` calls Check.my_check('a', 'b') where "
+                       "the object API and the documentation pass the list as the one argument - the registered check silently sees only its first statistic", f.loc(st))
+            if k_name in pairs and is_splat(pairs[k_name]):
+                n += 1
+                ok = classes == {"dict"}
+                ctx.ob("R15", f, f"{f.short}: the extras value is the keyword arguments exactly when it is a dict", ok,
+                       "isinstance(value, dict)" if ok else f"`{txt(st)[:60]}` uses the value as keyword arguments under {sorted(classes) or 'no type test'}", f.loc(st))
+    if n < 2:
+        raise AnalysisError(f"Config extras conversion: splat sites found: {n}")
+
+
 def run(ctx):
     from ..defassign import check_modules
     check_modules(ctx, "R8", ('pandera/api/dataframe/model.py', 'pandera/api/dataframe/model_components.py', 'pandera/api/pandas/model.py', 'pandera/api/polars/model.py', 'pandera/api/base/model.py', 'pandera/api/base/model_components.py'), "escapes to_schema()/validate of the model")
@@ -654,6 +713,7 @@ def run(ctx):
     r12_checks_keyed_like_fields(ctx)
     r13_designations_not_hashed_before_named(ctx)
     r14_override_hides_whatever_its_kind(ctx)
+    r15_extras_value_dispatch(ctx)
     r1_twins(ctx)
     r2_config(ctx)
     r3_dispatch(ctx)
